@@ -212,19 +212,22 @@ example (σ : List Nat) (hσ : σ.Perm (List.range 3)) :
     `c` = the peer's chain from genesis: linear (`Linked`), ids 1,2,…, distinct non-zero hashes, every block valid,
     ticket-carrying and value-free (`Lin`); the requester holds its first `m0 ≥ 1` blocks (its state is the closed
     form `linSt`, which is what the model's own in-order delivery produces — example below). With the retry rule
-    on, for the pinned flags AND for every repair combination that leaves the wind/unwind loop and the ticket rule as
-    they are (in particular the tree carrying the fixes F1 = `txVerdict`, F3 = `ringDeleteKeepsNone`), for EVERY permutation `σ` of the deliveries of the remaining blocks the node ends with
-    exactly the peer's chain adopted, nothing queued, and the peer's tip. No hypothesis on `addBlock` is left:
+    on, for EVERY flag vector `fl` — the pinned flags, the tree carrying the fixes F1 = `txVerdict`, F3 =
+    `ringDeleteKeepsNone`, and the trees with the repaired wind/unwind loop (`windFailureRestores`) and the repaired
+    ticket rule (`gtEveryBlock`), `Flags.fixed` included: every adoption here is a tip extension with an empty old
+    chain and a one-block candidate, on which the repaired loop and the every-block ticket rule coincide with the
+    pinned ones (`validate_pre`) —, for EVERY permutation `σ` of the deliveries of the remaining blocks the node ends
+    with exactly the peer's chain adopted, nothing queued, and the peer's tip. No hypothesis on `addBlock` is left:
     adoption of each next block (`addBlock_lin`: ring, fork choice, ticket window, wind, supply check — all
     evaluated symbolically) and the retry answers are proved in Lemmas/LinearChain.lean. -/
-theorem delivery_order_free_linear (fl : Flags) (hw : fl.windFailureRestores = false) (hg : fl.gtEveryBlock = false)
+theorem delivery_order_free_linear (fl : Flags)
     (gp : Nat) (c : List ABlock) (m0 : Nat) (d : ABlock) (L : Lin gp c) (hl : Linked c)
     (hm1 : 1 ≤ m0) (hm : m0 ≤ c.length) (σ : List Nat) (hσ : σ.Perm (List.range (c.length - m0))) :
     deliverAll fl { st := linSt gp true (c.take m0) } (σ.map (linBlk c m0 d)) =
       { st := linSt gp true c, queue := [], dead := false } ∧
     tipOf (deliverAll fl { st := linSt gp true (c.take m0) } (σ.map (linBlk c m0 d))) =
       c.getLast?.map (fun b => (b.id, b.hash)) := by
-  have h := deliverAll_perm (ladder_lin fl hw hg gp c m0 d L hl hm1 hm) σ hσ
+  have h := deliverAll_perm (ladder_lin fl gp c m0 d L hl hm1 hm) σ hσ
   have e0 : linSts gp c m0 0 = linSt gp true (c.take m0) := rfl
   have en : linSts gp c m0 (c.length - m0) = linSt gp true c := by
     unfold linSts
@@ -236,15 +239,23 @@ theorem delivery_order_free_linear (fl : Flags) (hw : fl.windFailureRestores = f
   obtain ⟨bs, last, rfl⟩ : ∃ bs last, c = bs ++ [last] := ⟨c.dropLast, c.getLast hne, (List.dropLast_concat_getLast hne).symm⟩
   simp only [tipOf, latest_lin, List.getLast?_append, List.getLast?_singleton, Option.map_some, Option.some_or]
 
-/-- the flag sets of the two trees the suite is run on meet the flag hypotheses: pinned (all false) and the tree with
-    the transaction verdict propagated and `RingItem::delete_block` repaired -/
+/-- the theorem instantiated at the flag sets of the trees the suite is run on: pinned (all false), the tree with the
+    transaction verdict propagated and `RingItem::delete_block` repaired, the tree measured now (loop and ticket rule
+    repaired as well), and the fully repaired flag vector -/
 example (gp : Nat) (c : List ABlock) (m0 : Nat) (d : ABlock) (L : Lin gp c) (hl : Linked c) (hm1 : 1 ≤ m0)
     (hm : m0 ≤ c.length) (σ : List Nat) (hσ : σ.Perm (List.range (c.length - m0))) :
     tipOf (deliverAll {} { st := linSt gp true (c.take m0) } (σ.map (linBlk c m0 d))) = c.getLast?.map (fun b => (b.id, b.hash)) ∧
     tipOf (deliverAll { ringDeleteKeepsNone := true, txVerdict := true } { st := linSt gp true (c.take m0) } (σ.map (linBlk c m0 d))) =
+      c.getLast?.map (fun b => (b.id, b.hash)) ∧
+    tipOf (deliverAll { ringDeleteKeepsNone := true, windFailureRestores := true, txVerdict := true, gtEveryBlock := true }
+        { st := linSt gp true (c.take m0) } (σ.map (linBlk c m0 d))) = c.getLast?.map (fun b => (b.id, b.hash)) ∧
+    tipOf (deliverAll Flags.fixed { st := linSt gp true (c.take m0) } (σ.map (linBlk c m0 d))) =
       c.getLast?.map (fun b => (b.id, b.hash)) :=
-  ⟨(delivery_order_free_linear {} rfl rfl gp c m0 d L hl hm1 hm σ hσ).2,
-   (delivery_order_free_linear { ringDeleteKeepsNone := true, txVerdict := true } rfl rfl gp c m0 d L hl hm1 hm σ hσ).2⟩
+  ⟨(delivery_order_free_linear {} gp c m0 d L hl hm1 hm σ hσ).2,
+   (delivery_order_free_linear { ringDeleteKeepsNone := true, txVerdict := true } gp c m0 d L hl hm1 hm σ hσ).2,
+   (delivery_order_free_linear { ringDeleteKeepsNone := true, windFailureRestores := true, txVerdict := true, gtEveryBlock := true }
+      gp c m0 d L hl hm1 hm σ hσ).2,
+   (delivery_order_free_linear Flags.fixed gp c m0 d L hl hm1 hm σ hσ).2⟩
 
 /-- non-vacuity: a six-block chain meets `Lin`/`Linked`, and the closed form IS the state the model's own
     `addBlock` reaches by in-order delivery from the empty node -/
